@@ -230,7 +230,11 @@ static void monitor(std::string s)
 {
     g_mon_count.fetch_add(1);
     while (g_mon_lock.exchange(true)) {}
-    if (g_monitor.size() < 30) g_monitor.push_back(std::move(s));
+    if (g_monitor.size() < 30)
+    {
+        std::fprintf(stderr, "monitor %s\n", s.c_str());
+        g_monitor.push_back(std::move(s));
+    }
     g_mon_lock.store(false);
 }
 
@@ -314,6 +318,29 @@ static void check_identity(ctx& c, char const* where)
     }
 }
 
+// every task of the harness (canary, helper, donor) runs this first: a task must start clean.
+// After reporting, the inherited state is cleared so that the run can go on and report everything.
+static void check_clean_start(std::string const& who)
+{
+    auto* td = ptd::get_self_id_data();
+    auto id = ptd::get_self_id();
+    if (!td->interruption_enabled())
+    {
+        monitor(who + ": starts with interruption disabled (inherited)");
+        td->set_interruption_enabled(true);
+    }
+    if (td->interruption_requested())
+    {
+        monitor(who + ": starts with an inherited interruption request");
+        td->interrupt(false);
+    }
+    if (ptd::get_thread_data(id) != 0)
+    {
+        monitor(who + ": starts with inherited task data " + std::to_string(ptd::get_thread_data(id)));
+        ptd::set_thread_data(id, 0);
+    }
+}
+
 struct susp_arg
 {
     ctx* c;
@@ -338,6 +365,7 @@ static void do_suspend(void* p) noexcept
         std::int16_t hint = std::int16_t((pika::get_worker_thread_num() + 1 + a->c->r.below(3)) % std::size_t(g_workers));
         auto s = ex::with_hint(ex::thread_pool_scheduler{}, pika::execution::thread_schedule_hint(hint));
         ex::start_detached(ex::schedule(s) | ex::then([sem] {
+            check_clean_start("helper task");
             if ((reinterpret_cast<std::uintptr_t>(sem.get()) >> 4) & 1) pika::this_thread::yield();
             sem->release();
             g_helpers_done.fetch_add(1);
@@ -418,13 +446,7 @@ static void canary_body(long lid, std::uint64_t seed, int cls)
     R.td = c.td;
     auto* td = ptd::get_self_id_data();
     // --- clean start
-    if (td->interruption_requested())
-        monitor("task " + std::to_string(lid) + ": starts with an inherited interruption request");
-    if (!td->interruption_enabled())
-        monitor("task " + std::to_string(lid) + ": starts with interruption disabled (inherited)");
-    if (ptd::get_thread_data(c.id) != 0)
-        monitor("task " + std::to_string(lid) + ": starts with inherited task data " +
-            std::to_string(ptd::get_thread_data(c.id)));
+    check_clean_start("task " + std::to_string(lid));
     void* td_at_reg = c.td;
     if (!ptd::add_thread_exit_callback(c.id, [lid, td_at_reg] {
             auto& Q = (*g_recs)[lid];
@@ -509,6 +531,7 @@ static int run_canary(std::uint64_t seed, int rounds, int per_round)
                 std::atomic<bool> started{false}, finished{false};
                 std::atomic<unsigned long> sinkv{0};
                 pika::thread donor([&] {
+                    check_clean_start("donor thread");
                     started.store(true);
                     unsigned long x = 1;
                     for (int i = 0; i < 20000; ++i) x = x * 6364136223846793005ul + 1442695040888963407ul;
